@@ -60,6 +60,41 @@ func TestVerifC02(t *testing.T) {
 			r.Sample(map[string]any{"n": n, "t": "67.0", "required": Threshold(67).Threshold(uint(n))})
 		}
 	}
+	// the threshold a node counts with is the one that was configured: two different one-decimal thresholds are
+	// never "equal" (the node's parameter write handler keeps the old threshold when Equal says so), and the text
+	// form round-trips
+	if r.Mine(0) {
+		ths := make([]Threshold, 0, 491)
+		for t10 := 510; t10 <= 1000; t10++ {
+			var th Threshold
+			if err := th.UnmarshalText([]byte(fmt.Sprintf("%d.%d", t10/10, t10%10))); err != nil {
+				t.Fatal(err)
+			}
+			ths = append(ths, th)
+			if back, err := th.MarshalText(); err != nil || string(back) != fmt.Sprintf("%d.%d", t10/10, t10%10) {
+				r.Violation(fmt.Sprintf("text,t10=%d", t10), map[string]any{"kind": "text-roundtrip"},
+					fmt.Sprintf("threshold %d.%d prints as %q (%v)", t10/10, t10%10, back, err), map[string]any{"t10": t10})
+			}
+		}
+		for i, a := range ths {
+			id := fmt.Sprintf("equal,t10=%d", 510+i)
+			if _, rp := r.Replaying(); rp && !r.Want(id) {
+				continue
+			}
+			for j, b := range ths {
+				if got := a.Equal(b); got != (i == j) {
+					r.Violation(id, map[string]any{"kind": "equal-wrong", "adjacent": i-j == 1 || j-i == 1, "got": got},
+						fmt.Sprintf("Threshold(%v).Equal(%v) = %v; required counts differ e.g. for n=1000: %d vs %d", a, b, got, a.Threshold(1000), b.Threshold(1000)),
+						map[string]any{"t10": 510 + i, "other_t10": 510 + j})
+					break
+				}
+			}
+			r.EvalN(491)
+			r.StatesN(491)
+			r.NontrivialN(490)
+		}
+		r.Add("threshold_pairs_compared", 491*491)
+	}
 	r.Outcome("ok")
 	if r.Violations() > 0 {
 		r.Outcome("mismatch")
